@@ -732,9 +732,10 @@ class World:
         period, epoch = parse_time_units(t['units'])
         return [epoch + period * n for n in t['values']]
 
-    def _time_variable(self):
+    def _time_variable(self, variant=0):
         t = self.spec['time']
-        secs = self.time_instants()
+        # another dataset on the same geometry (variant 1, 2, ...) covers another period: same number of records, later instants
+        secs = [x + variant * 37 * 86400 for x in self.time_instants()]
         vals = numpy.array(secs, dtype='int64').astype('datetime64[s]').astype('datetime64[ns]')
         var = xarray.Variable([t['dim']], vals, attrs={'long_name': 'Time', 'standard_name': 'time'})
         var.encoding.update({'units': t['units'], 'calendar': t.get('calendar', 'proleptic_gregorian'),
@@ -756,11 +757,19 @@ class World:
         else:
             self._build_ugrid(data_vars, coords)
         if s['time']:
-            coords[s['time']['name']] = self._time_variable()
+            coords[s['time']['name']] = self._time_variable(variant)
         for name in self.vars:
             data_vars[name] = self._var_data_array(name, variant)
         for d in self.spec.get('depths', []) or []:
             self._build_depth(d, data_vars, coords)
+        if s.get('array_attrs'):
+            # array-valued attributes (CF valid_range) on the floating point geometry variables
+            for name in self.geometry_names():
+                var = coords.get(name, data_vars.get(name))
+                if var is not None and getattr(var, 'ndim', 0) > 0 and numpy.asarray(var.values).dtype.kind == 'f':
+                    vals = numpy.asarray(var.values)
+                    if numpy.isfinite(vals).any():
+                        var.attrs['valid_range'] = numpy.array([numpy.nanmin(vals) - 1.0, numpy.nanmax(vals) + 1.0])
         ds = xarray.Dataset(data_vars=data_vars, coords=coords, attrs=attrs)
         return ds
 
@@ -784,7 +793,15 @@ class World:
 
     def _cf2d_arrays(self):
         s = self.spec
-        g = numpy.array(s['corners'], dtype='float64')  # (ny+1, nx+1, 2)
+        if isinstance(s['corners'], dict):
+            # a large grid given by a formula instead of a list (the plan stays small): a sheared, slightly curved lattice
+            f = s['corners']
+            j, i = numpy.meshgrid(numpy.arange(s['ny'] + 1, dtype='float64'), numpy.arange(s['nx'] + 1, dtype='float64'), indexing='ij')
+            gx = f['x0'] + i * f['dx'] + j * f['skew'] * f['dx'] + (j * j) * 1e-7
+            gy = f['y0'] + j * f['dy'] + i * f['skew'] * f['dy'] * 0.5 + (i * i) * 1e-7
+            g = numpy.stack([gx, gy], axis=-1)
+        else:
+            g = numpy.array(s['corners'], dtype='float64')  # (ny+1, nx+1, 2)
         bnds = numpy.stack([g[:-1, :-1], g[:-1, 1:], g[1:, 1:], g[1:, :-1]], axis=2)  # (ny, nx, 4, 2)
         centre = bnds.mean(axis=2)
         holes = s['holes']
